@@ -72,7 +72,7 @@ class BuiltinMixin(object):
                 yield self.raise_(st, TypeError, 'len of None')
                 return
             if isinstance(v, SetOf):
-                yield st, SV(v.card(self), INT)
+                yield v.card(self, st)
                 return
             raise OutOfReach('len of %r' % (v,))
         k = x.ty.kind
@@ -518,11 +518,33 @@ class BuiltinMixin(object):
         i = fresh('i', IntS)
         st = st.assume(n >= 1)
         st = st.assume(z3.ForAll([i], z3.Implies(z3.And(0 <= i, i < n), arr[i] == self.f_split_item()(s, c, i))))
+        st = st.assume(z3.And(*self.split_facts(s, c)))
         st = self.HS(st, 'La.S', z3.Store(self.H(st, 'La.S'), r, arr))
         st = self.HS(st, 'Ll', z3.Store(self.H(st, 'Ll'), r, n))
         st.ghost = dict(st.ghost)
         st.ghost['splits'] = st.ghost.get('splits', ()) + ((s, c, r),)
         return st, SV(r, ListT(recv.ty))
+
+    def split_facts(self, s, c):
+        """ground instances (for this s, c with len(c) == 1) of the split/join axioms:
+        Lean core List.splitOn lemmas restated for CPython str.split (validated by selftest/diff_builtins)"""
+        item = self.f_split_item()
+        n = self.f_split_len()(s, c)
+        i0 = item(s, c, 0)
+        i1 = item(s, c, 1)
+        l0 = z3.Length(i0)
+        l1 = z3.Length(i1)
+        ls = z3.Length(s)
+        return [
+            n >= 1,
+            (n >= 2) == z3.Contains(s, c),
+            z3.PrefixOf(i0, s),
+            z3.Not(z3.Contains(i0, c)),
+            z3.If(n == 1, i0 == s, z3.SubString(s, l0, 1) == c),
+            z3.Implies(n >= 2, z3.And(z3.SubString(s, l0 + 1, l1) == i1, z3.Not(z3.Contains(i1, c)),
+                                      l0 + 1 + l1 <= ls,
+                                      z3.If(n == 2, l0 + 1 + l1 == ls, z3.SubString(s, l0 + 1 + l1, 1) == c))),
+        ]
 
     def str_split1(self, st, recv, sep):
         """s.split(c, 1): [head] or [head, tail]; head == split_item(s,c,0)"""
@@ -533,6 +555,7 @@ class BuiltinMixin(object):
         st, r = self.alloc(st, 'list')
         arr = z3.Store(z3.Store(z3.K(IntS, z3.StringVal('')), 0, head), 1, tail)
         st = st.assume(n >= 1)
+        st = st.assume(z3.And(*self.split_facts(s, c)))
         st = self.HS(st, 'La.S', z3.Store(self.H(st, 'La.S'), r, arr))
         st = self.HS(st, 'Ll', z3.Store(self.H(st, 'Ll'), r, z3.If(n >= 2, 2, 1)))
         return st, SV(r, ListT(recv.ty))
@@ -768,12 +791,12 @@ class BuiltinMixin(object):
             yield st, mk(DictValues(recv))
         elif name == 'update':
             (d,) = args
-            if d.is_py and isinstance(d.py, PyDict):
-                for k, v in d.py.items.items():
-                    st = self.dict_store(st, recv, mk(k), v)
-                yield st, NONE_SV
-            else:
-                raise OutOfReach('dict.update with %r' % (d,))
+            sh = self.dict_shadow(st, d)
+            if sh is None:
+                raise OutOfReach('dict.update with a dict of unknown key set')
+            for k, v in sh:
+                st = self.dict_store(st, recv, mk(k), v)
+            yield st, NONE_SV
         elif name == 'copy':
             st, r = self.alloc(st, 'dict')
             st = self.HS(st, 'Dd', z3.Store(self.H(st, 'Dd'), r, dom))
@@ -789,6 +812,13 @@ class BuiltinMixin(object):
         kt = self.term(key, 'S')
         st, t = self.store_term(st, val, code)
         a = d.term
+        sk = 'shadow:%s' % a
+        if sk in st.ghost:
+            st = st.copy()
+            if key.is_py:
+                st.ghost[sk] = tuple((kk, vv) for kk, vv in st.ghost[sk] if kk != key.py) + ((key.py, val),)
+            else:
+                del st.ghost[sk]
         st = self.HS(st, 'Dd', z3.Store(self.H(st, 'Dd'), a, z3.Store(self.H(st, 'Dd')[a], kt, z3.BoolVal(True))))
         st = self.HS(st, 'Dv.' + code, z3.Store(self.H(st, 'Dv.' + code), a, z3.Store(self.H(st, 'Dv.' + code)[a], kt, t)))
         return st
@@ -879,8 +909,32 @@ class SetOf(object):
         self.kind = kind
         self.src = src
 
-    def card(self, ex):
-        raise OutOfReach('cardinality of a symbolic set outside the duplicate-test idiom')
+    def card(self, ex, st):
+        """(st, SV) number of distinct elements"""
+        if self.kind == 'chars':
+            t = self.src.term
+            dc = fresh('dcount', IntS)
+            i = fresh('i', IntS)
+            j = fresh('j', IntS)
+            n = z3.Length(t)
+            distinct = z3.ForAll([i, j], z3.Implies(z3.And(0 <= i, i < j, j < n),
+                                                    z3.SubString(t, i, 1) != z3.SubString(t, j, 1)))
+            st = st.assume(z3.And(dc >= 0, dc <= n, z3.Implies(n > 0, dc >= 1), (dc == n) == distinct))
+            return st, SV(dc, INT)
+        if self.kind == 'condlist':
+            items = self.src.items
+            terms = []
+            for a, (ca, va) in enumerate(items):
+                dup_earlier = []
+                for b in range(a):
+                    cb, vb = items[b]
+                    e = ex.eq(st, va, vb)
+                    dup_earlier.append(ex.and_([cb, e]))
+                first = ex.and_([ca, ex.not_(ex.or_(dup_earlier))])
+                first = first if not isinstance(first, bool) else z3.BoolVal(first)
+                terms.append(z3.If(first, 1, 0))
+            return st, SV(z3.Sum(*terms) if terms else z3.IntVal(0), INT)
+        raise OutOfReach('cardinality of set(%s)' % self.kind)
 
 
 class TakeWhileRev(object):
